@@ -10,10 +10,11 @@ alg = {'name': str, 'ver': (d,i,b), 'svs': [{'name':..,'ver':..,'vals':[(vname,(
 ref = ('alg'|'sv'|'v', pkg, fac, algname, svname|None, vname|None)
 '''
 import os, sys, types, tempfile, logging
-sys.path.insert(0, '/repo/Python')
+SRC = os.environ.get('DAWGIE_SRC', '/repo/Python')   # point at a scratch copy to try a repair
+sys.path.insert(0, SRC)
 logging.disable(logging.CRITICAL)
 import dawgie, dawgie.context
-assert dawgie.__file__.startswith('/repo/Python/'), dawgie.__file__
+assert dawgie.__file__.startswith(SRC + '/'), dawgie.__file__
 BASE = 'vae'
 dawgie.context.ae_base_package = BASE
 _tmp = tempfile.mkdtemp(prefix='dvprobe_')
